@@ -1,6 +1,9 @@
 #!/bin/sh
-# regenerates _CoqProject from the files present and the Makefile from it
+# regenerates _CoqProject from the files present, and the Makefile from it,
+# only when the file list changed (so concurrent checks do not disturb a running make)
 cd "$(dirname "$0")"
+mkdir -p Gen
+tmp=$(mktemp)
 {
   echo "-Q Model Ctg"
   echo "-Q Proofs Ctg"
@@ -8,5 +11,10 @@ cd "$(dirname "$0")"
   echo "-Q Gen Ctg"
   echo "-arg -w -arg -notation-overridden,-deprecated-hint-without-locality,-deprecated-instance-without-locality"
   ls Model/*.v Proofs/*.v Props/*.v Gen/*.v 2>/dev/null | sort
-} > _CoqProject
-coq_makefile -f _CoqProject -o Makefile >/dev/null
+} > "$tmp"
+if [ ! -f _CoqProject ] || [ ! -f Makefile ] || ! cmp -s "$tmp" _CoqProject; then
+  mv "$tmp" _CoqProject
+  coq_makefile -f _CoqProject -o Makefile >/dev/null
+else
+  rm -f "$tmp"
+fi
